@@ -83,4 +83,51 @@ def retryable (cfg : Cfg) (cls : Nat) : Bool :=
   (cfg.retryFor.isEmpty || isInst cfg cls cfg.retryFor)
   && !(!cfg.doNotRetryFor.isEmpty && isInst cfg cls cfg.doNotRetryFor)
   && cfg.nameInDir
+/-! ## several calls on ONE RetryingClient
+
+The attributes `__init__` stores (lines 97–115) and `_retry` reads; `_retry` (lines 117–150) assigns none of
+them and its loop counter `attempt` is a local of the call.  A call names a method (looked up in
+`_client_dir`, line 145) and has its own script of outcomes of the wrapped method. -/
+structure Obj where
+  attempts : Nat
+  retryFor : List Nat          -- `_retry_for`, a tuple: `()` both for `None` and for an empty collection
+  doNotRetryFor : List Nat     -- `_do_not_retry_for`
+  clientDir : List Nat         -- `_client_dir` (method names as ids)
+  sub : Nat → Nat → Bool
+
+structure MCall where
+  method : Nat
+  script : List Outcome
+
+/-- what one call sees of the object -/
+def Obj.cfg (o : Obj) (method : Nat) : Cfg :=
+  ⟨o.attempts, o.retryFor, o.doNotRetryFor, o.clientDir.contains method, o.sub⟩
+
+/-- `rc.<method>(…)`: `__getattr__` → `_retry`; the object afterwards, and the run -/
+def callOnce (o : Obj) (c : MCall) : Obj × Run := (o, retry (o.cfg c.method) c.script)
+
+/-- a history of calls on one object, threading the object through -/
+def runCalls (o : Obj) : List MCall → Obj × List Run
+  | [] => (o, [])
+  | c :: rest => ((runCalls (callOnce o c).1 rest).1, (callOnce o c).2 :: (runCalls (callOnce o c).1 rest).2)
+
+/-- `__init__`: the object that is constructed, `none` = ValueError (same tests, same order as `ctorOk`) -/
+def construct (a : CtorArgs) (clientDir : List Nat) (sub : Nat → Nat → Bool) : Option Obj :=
+  if a.attempts < 1 then none else
+  match ensureTuple a.retryForKind a.retryFor a.isExcClass, ensureTuple a.dnrKind a.dnr a.isExcClass with
+  | some rf, some dn =>
+    if rf.any fun c => dn.contains c then none else some ⟨a.attempts.toNat, rf, dn, clientDir, sub⟩
+  | _, _ => none
+
+/-- the decision of lines 138–146 with the `retry_for` disjunct struck out ("no `retry_for`") -/
+def mustRaiseNoRetryFor (cfg : Cfg) (attempt cls : Nat) : Bool :=
+  decide (attempt ≥ cfg.attempts - 1)
+  || (!cfg.doNotRetryFor.isEmpty && isInst cfg cls cfg.doNotRetryFor)
+  || !cfg.nameInDir
+
+/-- … with the `do_not_retry_for` disjunct struck out ("no `do_not_retry_for`") -/
+def mustRaiseNoDoNotRetryFor (cfg : Cfg) (attempt cls : Nat) : Bool :=
+  decide (attempt ≥ cfg.attempts - 1)
+  || (!cfg.retryFor.isEmpty && !isInst cfg cls cfg.retryFor)
+  || !cfg.nameInDir
 end Retrying
